@@ -200,9 +200,24 @@ def gen_pat(rng: random.Random, depth=2, alphabet="abx1"):
 
 # ---- checks -----------------------------------------------------------------
 
+_registered = False
+
+
+def ensure_backends():
+    """pandera registers its pandas backends lazily on the first validate; checks called directly
+    (`Check(...)(series)`) need them too"""
+    global _registered
+    if not _registered:
+        from pandera.backends.pandas.register import register_pandas_backends
+        for fqn in ("pandas.core.series.Series", "pandas.core.frame.DataFrame"):
+            register_pandas_backends(fqn)
+        _registered = True
+
+
 def check_of(cs):
     """CheckSpec json -> pandera Check"""
     import pandera as pa
+    ensure_backends()
     b = cs["b"]
     k = next(iter(b))
     x = b[k]
